@@ -32,7 +32,7 @@
    [hist_wf]; thread scheduling and real time are runtime (the correspondence runs the real handler deterministically). *)
 From Tramp Require Import Model.Base Model.Fee Model.Classify Model.Node Model.Provider Model.ProviderSys Model.Sys.
 From Tramp Require Import Proofs.SysBasics Proofs.SysShape Proofs.SysTheorems Proofs.SysTimers Proofs.SysReach Proofs.SysCalls Proofs.SysNode Proofs.SysSafety Proofs.SysLive.
-From Tramp Require Import Proofs.SysTerm.
+From Tramp Require Import Proofs.SysTerm Proofs.SysAccount.
 
 Theorem C06_held_or_answered : forall c s h,
   (exists en, entry_ (pl (fst (step c s (EvHtlc h)))) = Some en /\ In h (listeners en)) \/
@@ -80,6 +80,14 @@ Theorem C06_every_held_htlc_is_answered : forall c n t0 h0 a0 evs en h,
   let s := after c n t0 h0 a0 evs in
   entry_ (pl s) = Some en -> In h (listeners en) -> Answered c (hid h) s.
 Proof. intros c n t0 h0 a0 evs en h Hn Hwf. exact (held_htlc_is_answered c _ en h (after_wreach true c n t0 h0 a0 evs Hn Hwf)). Qed.
+
+(* no HTLC is silently dropped, along EVERY history from EVERY state (no hypothesis on the environment): an HTLC that is held, or that
+   arrives during the history, is still held at the end, or a response carrying its id was written, or the node crashed during the
+   history (it then replays the HTLC: a new arrival) *)
+Theorem C06_no_htlc_is_silently_dropped : forall c evs s h,
+  In h (lis (entry_ (pl s))) \/ In (EvHtlc h) evs ->
+  In h (lis (entry_ (pl (fst (run c s evs))))) \/ answered_in (hid h) (snd (run c s evs)) \/ In EvCrash evs.
+Proof. exact run_account. Qed.
 
 (* no internal divergence, on EVERY schedule: from any reachable state, a run made only of internal events (the node answering an
    RPC, a reply reaching its lifecycle, a lifecycle polling its queues) in which every step changes the state has at most
